@@ -22,6 +22,7 @@ import (
 	"sort"
 	"strings"
 	"sync"
+	"sync/atomic"
 	"time"
 
 	"github.com/jamf/regatta/regattapb"
@@ -281,7 +282,7 @@ func replScenario(out *Out, r *rand.Rand, sc int) {
 		e.startFollower()
 		e.startManager()
 	}
-	out.Stats[fmt.Sprintf("late_%v", late)]++
+	out.Count(fmt.Sprintf("late_%v", late))
 	// concurrent phase: the leader keeps writing, the follower is sampled, things get restarted
 	stop := make(chan struct{})
 	var wg sync.WaitGroup
@@ -509,13 +510,14 @@ func replProposeBatch(out *Out, r *rand.Rand, rounds int) {
 		}
 		ctx, cancel := context.WithTimeout(context.Background(), 30*time.Second)
 		done := make(chan struct{})
+		var notifications atomic.Int64
 		go func() {
 			seen := 0
 			for {
 				select {
 				case <-applied:
 					seen++
-					out.Stats["pbatch_notifications"]++
+					notifications.Add(1)
 					if stopAfter > 0 && seen == stopAfter {
 						cancel()
 					}
@@ -527,6 +529,7 @@ func replProposeBatch(out *Out, r *rand.Rand, rounds int) {
 		_, perr := replication.VerifProposeBatch(ctx, e, "pb", cmds)
 		close(done)
 		cancel()
+		out.Add("pbatch_notifications", int(notifications.Load()))
 		if perr != nil {
 			out.Count("pbatch_cut_short")
 		} else {
